@@ -65,13 +65,15 @@ def classify(text, r):
         at = b[d["start"]:d["start"] + 12].decode("utf-8", "replace")
         if re.search(r"(\(|,|^|\s|NOT|-|\.\.)- \d", line) and (at.startswith(" ") or at[:1].isdigit() or at.startswith("-")):
             return "render-negative-literal-blank"
+        if re.search(r"(L?REAL)#[-+]?\d+(?![\d.])", line) and re.match(r"[-+]?\d", at.strip()):
+            return "render-real-integral-as-integer"
         if re.search(r"ARRAY .* OF \w+ *:= *[^\[]", line):
             return "render-array-initial-values"
         if re.match(r"\s*\w+ := \(", line):
             return "structure-initialization-type-declaration-base-dropped"
         if "INTERNAL :=" in line:
             return "render-task-interval-keyword"
-        if re.search(r"(L?REAL)#\d+(?![\d.])", line):
+        if re.search(r"(L?REAL)#[-+]?\d+(?![\d.])", line):
             return "render-real-integral-as-integer"
         return None
     if r.get("parse2") == "ok" and not r.get("equal"):
@@ -115,7 +117,12 @@ def search(run, info):
     for _ in range(150 if run.tier == "quick" else 3000):
         sx, lx = gen_st.G_(rng, depth=rng.choice([1, 2, 3])).body()
         # a negative constant under a unary operator (- -5) is the recorded negative-literal rendering
-        texts.append(("statement-model", gen_prog.render(lx), {"render-negative-literal-blank"} if "i:-" in sx else set()))
+        kn = set()
+        if "i:-" in sx:
+            kn.add("render-negative-literal-blank")
+        if "r:" in sx:
+            kn.add("render-real-integral-as-integer")
+        texts.append(("statement-model", gen_prog.render(lx), kn))
     # the witnesses of the recorded renderer gaps for constructs the AST-level generator does not produce
     witness_keys = {}
     for f in run.known:
